@@ -75,6 +75,8 @@ ASSUMPTIONS = [
     "coordinates, option fields; with add_svd=True the SVD variables added to the caller's datasets are ignored",
 ]
 RULE = (
+    "the injected exception is of one of 15 classes in turn (RuntimeError, ValueError, ZeroDivisionError, KeyError, IndexError, "
+    "TypeError, AttributeError, OSError, LinAlgError, glotaran's ParameterNotFoundException, a plugin-defined Exception subclass, ...); "
     "case = (scheme, optimisation method, verbose, raise_exception, fault) where fault = (kind raise | nan | inf | "
     "persistent-raise, global calculate_matrix call number n of the fault-free run); n ranges over the first and the "
     "last calculate_matrix call of EVERY evaluation 1..N of the fault-free run (thorough: every call), N includes "
@@ -473,6 +475,11 @@ def _exc_classes():
             "AttributeError": AttributeError, "NotImplementedError": NotImplementedError, "OSError": OSError,
             "AssertionError": AssertionError, "StopIteration": StopIteration, "LinAlgError": np.linalg.LinAlgError,
             "ParameterNotFoundException": ParameterNotFoundException, "PluginDefinedError": PluginDefinedError}
+
+
+def fault_text(fault, n) -> str:
+    """str() of the exception injected at call n (KeyError quotes its argument, ParameterNotFoundException adds a prefix)"""
+    return str(EXC_CLASSES[fault.get("exc", "RuntimeError")](f"{FAULT_PREFIX}{n}"))
 
 
 EXC_CLASSES = _exc_classes()
@@ -991,13 +998,13 @@ def planned_schedule(free: Obs, ids: Ids, fault):
     at = fault["at"]
     k = free.call_sweep[at - 1]
     n_obj = len(base["calls"])
-    msg = f"{FAULT_PREFIX}{at}"
+    msg = fault_text(fault, at)
     calls = [[x, msg if i + 1 == k else None] for i, (x, _) in enumerate(base["calls"])]
     sched = {"calls": calls, "finish": base["finish"],
              "penalty": msg if k == n_obj + 1 else None, "final": msg if k == n_obj + 2 else None}
     if fault["kind"] == "persistent" and k <= n_obj:
         # least_squares fails at call `at`; the re-evaluation of create_result is calculate_matrix call at+1
-        sched["penalty"] = f"{FAULT_PREFIX}{at + 1}"
+        sched["penalty"] = fault_text(fault, at + 1)
     return sched
 
 
@@ -1679,6 +1686,12 @@ def run(ck):
         free = fault_free(ck, "one", method, batch)
         n_obj = len(free.trace.obj)
         for sweep in (n_obj + 1, n_obj + 2):
+            if sweep not in free.call_sweep:
+                # this tree's create_result does not evaluate the model (any more) in that step: nothing to inject there
+                ck.count("create-result-evaluation-absent")
+                ck.diagnostic("create_result performs no model evaluation in this step on the fault-free run",
+                              {"method": method, "sweep": sweep - n_obj})
+                continue
             at = _first_call_of_sweep(free, sweep) + 1
             run_case(ck, {"scheme": "one", "method": method, "verbose": False, "raise": False,
                           "fault": {"kind": "raise", "at": at}}, batch)
@@ -1712,6 +1725,10 @@ def run(ck):
         ck.exhaustive = True
         ck.extra["exhaustive_space"] = f"every calculate_matrix call of every scheme/method/flag combination: {len(cases)} cases"
     for i, case in enumerate(cases):
+        if case.get("fault") and case["fault"]["kind"] in ("raise", "persistent"):
+            # the class of the injected exception cycles through arithmetic / lookup / type / os / plugin-defined classes
+            case = {**case, "fault": {**case["fault"], "exc": EXC_NAMES[i % len(EXC_NAMES)]}}
+            ck.count("exception-class:" + case["fault"]["exc"])
         run_case(ck, case, batch)
         ck.count("stream:injection")
         if len(batch.items) >= 4000:
